@@ -172,7 +172,7 @@ def run_shard(shard, tier, res):
     cfg = tuple(shard['cfg'])
     tol = Fr(*shard['tol'])
     m = JitterModel(cfg, tol)
-    depth = 4 if tier == 'quick' else 6
+    depth = 5 if tier == 'quick' else 7
 
     def on_violation(hist, msg):
         case = {'mode': 'online', 'cfg': list(cfg), 'tol': shard['tol'], 'gaps': [('R' if g == 'R' else [g.numerator, g.denominator]) for g in hist]}
